@@ -137,7 +137,15 @@ pub fn generate(rng: &mut Rng, tier: Tier, emit: &mut dyn FnMut(String)) {
             0 => format!("{} pref={} fo=0 seed={} keys={} api=i stmt={}", two_dc(rng), 1 + rng.below(2), seed, keys, if rng.bool() { "ins" } else { "sel" }),
             1 => format!("{} pref=0 fo=0 seed={} keys={} api=i stmt=sel pages=2", one_dc(rng, 2), seed, keys),
             2 => format!("{} pref={} fo=0 seed={} keys={} api=i stmt=sel pages=2", two_dc(rng), 1 + rng.below(2), seed, keys),
+            // the LWT mark, in one datacenter or (SimpleStrategy over two datacenters) in two; every other round the LWT
+            // routing comes from the serial consistency of the profile instead, also for pages 2+ (the worker literal's
+            // consistency)
+            3 if (i / 10) % 2 == 1 => format!("n=4 dcs=2 racks=1 sh={} mix=0 nat=0 msb=12 vn={} st=S{} pref=0 fo=0 seed={} keys={} api={} lwtmark=1", sh, vn, 1 + rng.below(4), seed, keys, if rng.bool() { "u" } else { "i" }),
             3 => format!("{} pref=0 fo=0 seed={} keys={} api=u lwtmark=1", one_dc(rng, 1), seed, keys),
+            4 if (i / 10) % 2 == 1 => {
+                let topo = if rng.bool() { one_dc(rng, 2) } else { format!("n=4 dcs=2 racks=1 sh={} mix=0 nat=0 msb=12 vn={} st=S{}", sh, vn, 2 + rng.below(3)) };
+                format!("{} pref=0 fo=0 seed={} keys={} api=i stmt=sel lwt=1 pages=2", topo, seed, keys)
+            }
             4 => format!("{} pref=0 fo=0 seed={} keys={} api=i stmt=sel lwtmark=1 pages={}", one_dc(rng, 2), seed, keys, 1 + rng.below(2)),
             5 => format!("{} pref=0 fo=0 seed={} keys={} api={} spref={} svia=p", two_dc(rng), seed, keys, if rng.bool() { "u" } else { "i" }, 1 + rng.below(2)),
             6 => {
@@ -216,6 +224,22 @@ impl Drop for MarkGuard {
     fn drop(&mut self) {
         ADVERTISE_LWT_MARK.store(false, std::sync::atomic::Ordering::SeqCst);
     }
+}
+
+/// Retry policy of the `lwt=1 pages=2` cases: every failed attempt is retried once per target, on the next target.
+#[derive(Debug)]
+struct NextTargetRetry;
+struct NextTargetSession;
+impl scylla::policies::retry::RetryPolicy for NextTargetRetry {
+    fn new_session(&self) -> Box<dyn scylla::policies::retry::RetrySession> {
+        Box::new(NextTargetSession)
+    }
+}
+impl scylla::policies::retry::RetrySession for NextTargetSession {
+    fn decide_should_retry(&mut self, _: scylla::policies::retry::RequestInfo) -> scylla::policies::retry::RetryDecision {
+        scylla::policies::retry::RetryDecision::RetryNextTarget(None)
+    }
+    fn reset(&mut self) {}
 }
 
 pub fn gen_keys(seed: u64, k: usize) -> Vec<Vec<u8>> {
@@ -376,8 +400,13 @@ pub fn run(words: &[&str], ctx: &mut Ctx) -> String {
             None if lwt == 1 => {
                 // routed as an LWT: serial consistency (`RoutingInfo::should_route_as_lwt`)
                 use scylla::client::execution_profile::ExecutionProfile;
-                let profile = ExecutionProfile::builder().consistency(scylla::statement::Consistency::Serial).build();
-                b.default_execution_profile_handle(profile.into_handle())
+                let mut pb = ExecutionProfile::builder().consistency(scylla::statement::Consistency::Serial);
+                if pages == 2 {
+                    // the default retry policy never retries at a serial consistency: the retry of page 2 (which is what
+                    // reads the plan of the pages-2+ literal) needs a policy that moves on to the next target
+                    pb = pb.retry_policy(std::sync::Arc::new(NextTargetRetry));
+                }
+                b.default_execution_profile_handle(pb.build().into_handle())
             }
             None => b,
             Some(dc) if fo == 0 => b.prefer_datacenter(dc.clone()),
